@@ -46,6 +46,8 @@ def classify(text, optok, stage, metric):
     if stage == "parse":
         if has("math_code") and "$" in text and "`" in text and metric == "steps":
             return "math_code_scan"
+        if has("math_dollars") and "$" in text and "\\" in text and metric == "steps":
+            return "math_dollar_scan"
         if has("autolink") and "@" in text and metric in ("alloc", "peak"):
             return "email_autolink_tail_copy"
         if has("autolink") and ")" in text and ("www." in text or "://" in text) and metric == "steps":
